@@ -41,7 +41,8 @@ def budget(tier):
 
 # ---------------------------------------------------------------- strategy
 _FLOAT_POOL = [0.0, -0.0, 0.5, 1.0, 1.0000000000000002, 2.5, float("inf"), float("-inf"), 1e300, -3.0]
-_INT_POOL = [0, 1, 2, 3, 5, -1, 2 ** 70, 2 ** 53 + 1]
+_INT_POOL = [0, 1, 2, 3, 5, -1, 2 ** 70, 2 ** 53 + 1, 2 ** 53, 2 ** 53 + 2, 2 ** 60, 2 ** 60 + 1, 2 ** 60 + 3,
+             -(2 ** 53) - 1, -(2 ** 53)]   # distinct ints that round to the same float
 _PRIO_POOL = [1, 5, 5, 5, 10, 4, 6]
 
 
